@@ -2,7 +2,7 @@
 from .common import *
 FIELDS = ('out', 'cls')
 RULE = 'structured programs rich in IF chains (1-6 arms, nested in branches/loops/functions, statements between arms); distinct texts containing at least one chain with 2+ arms'
-W = dict(emit=5, assign=2, ifchain=7, repeat=2, whil=1, brk=0.5, func=1.2, call=2, ret=0.2, prnt=0.1, exist=0.1)
+W = dict(emit=5, assign=2, ifchain=7, repeat=2, whil=1, brk=0.5, func=1.2, call=2, ret=0.2, prnt=0.1, exist=0.1, between_p=0.5)
 
 
 def generate(g, tier):
